@@ -494,17 +494,24 @@ Fixpoint dec_params (ext : bool) (fuel : nat) (d : list Z) : res (list cap) :=
     end
   end.
 
+(* Which encoding Capabilities.unpack reads.  T6 probes the tree: EXT_BY_TYPE_OCTET = false is the unrepaired test
+   (both octets must be 255), true is RFC 9072 s.2: the type octet alone, the length octet before it being any
+   non-zero value.  Either way the four header octets must be there. *)
+Definition ext_selected (d : list Z) : bool :=
+  (if EXT_BY_TYPE_OCTET then negb (nth 0 d 0 =? 0) else nth 0 d 0 =? EXTENDED_LENGTH)
+  && negb (len d <? 4) && (nth 1 d 0 =? EXTENDED_LENGTH).
+
 (* Capabilities.unpack(data[9:]) *)
 Definition dec_optparams (d : list Z) : res (list cap) :=
   match d with
   | [] => Ok []
   | ol :: t =>
-    if (ol =? EXTENDED_LENGTH) && (len d <? 4) then n20
-    else if (ol =? EXTENDED_LENGTH) && (nth 1 d 0 =? EXTENDED_LENGTH) then
+    if ext_selected d then
       let n := rd16 (skipn 2 d) in
       if len d <? n + 4 then n20
       else let p := firstn (Z.to_nat n) (skipn 4 d) in dec_params true (length p) p
     else
+      (* base encoding; a length octet of 255 with fewer than four octets is the truncation error below *)
       if len d <? ol + 1 then n20
       else let p := firstn (Z.to_nat ol) t in dec_params false (length p) p
   end.
